@@ -261,8 +261,6 @@ func zero(t types.Type) value {
 	panic(fmt.Sprint("zero: unexpected ", t))
 }
 
-
-
 // binop implements all arithmetic and logical binary operators for
 // numeric datatypes and strings.  Both operands must have identical
 // dynamic type.
@@ -735,8 +733,6 @@ func binopConcrete(op token.Token, t types.Type, x, y value) value {
 	panic(fmt.Sprintf("invalid binary op: %T %s %T", x, op, y))
 }
 
-
-
 // typeAssert checks whether dynamic type of itf is instr.AssertedType.
 // It returns the extracted value on success, and panics on failure,
 // unless instr.CommaOk, in which case it always returns a "value,ok" tuple.
@@ -773,8 +769,6 @@ func typeAssert(i *interpreter, instr *ssa.TypeAssert, itf iface) value {
 
 // This variable is no longer used but remains to prevent build breakage.
 var CapturedOutput *bytes.Buffer
-
-
 
 // widen widens a basic typed value x to the widest type of its
 // category, one of:
